@@ -77,7 +77,7 @@ class M:
         if k=='var':
             n=e[1]
             if n in env:
-                v=env[n]; loc=('L',id(env),n)
+                v=env[n]; loc=('L',env.get('$id',0),n)
             elif n in s.arr: return ('ref',n)
             else: v=s.g[n]; loc=('G',n)
             if v is None: raise Undef('unassigned')
@@ -136,6 +136,7 @@ class M:
             pr=s.procs[e[1]]
             args=s.operands(env,e[2])
             new={}
+            M.ctr=getattr(M,'ctr',0)+1; new['$id']=M.ctr
             for (fk,fn),a in zip(pr['formals'],args): new[fn]=a
             for l in pr['locals']: new[l]=None
             s.depth+=1
@@ -157,7 +158,7 @@ class M:
             if t[0]=='var':
                 v=s.ev(env,st[2])
                 if v is None: raise Undef('noreturn')
-                if t[1] in env: env[t[1]]=v; s.wr.add(('L',id(env),t[1]))
+                if t[1] in env: env[t[1]]=v; s.wr.add(('L',env.get('$id',0),t[1]))
                 else: s.g[t[1]]=v; s.wr.add(('G',t[1]))
             else:
                 i,v=s.operands(env,[t[2],st[2]])
